@@ -1,4 +1,5 @@
 import LapyVerif.Props.C02
+import LapyVerif.Props.C02b
 import LapyVerif.Bridge.Fem
 /- axiom audit of C02 -/
 #print axioms LapyVerif.Props.C02.mass_form
@@ -23,3 +24,23 @@ import LapyVerif.Bridge.Fem
 #print axioms LapyVerif.Bridge.fem_aniso_B
 #print axioms LapyVerif.Bridge.fem_tet_B
 #print axioms LapyVerif.Bridge.fem_tet_BL
+#print axioms LapyVerif.Props.C02.integral_cubic
+#print axioms LapyVerif.Props.C02.integral_quadratic
+#print axioms LapyVerif.Props.C02.integral_quartic
+#print axioms LapyVerif.Props.C02.integral_bernstein3
+#print axioms LapyVerif.Props.C02.tri_inner
+#print axioms LapyVerif.Props.C02.tri_double_integral
+#print axioms LapyVerif.Props.C02.tri_moments
+#print axioms LapyVerif.Props.C02.tri_measure
+#print axioms LapyVerif.Props.C02.triL2_eq_integral
+#print axioms LapyVerif.Props.C02.mass_form_integral
+#print axioms LapyVerif.Props.C02.integral_simplex_mid
+#print axioms LapyVerif.Props.C02.integral_bernstein4
+#print axioms LapyVerif.Props.C02.tet_inner
+#print axioms LapyVerif.Props.C02.tet_mid
+#print axioms LapyVerif.Props.C02.tet_triple_integral
+#print axioms LapyVerif.Props.C02.tetL2_eq_integral
+#print axioms LapyVerif.Props.C02.tet_moments
+#print axioms LapyVerif.Props.C02.tet_measure
+#print axioms LapyVerif.Props.C02.mass_form_integral_tet
+#print axioms LapyVerif.Props.C02.ex_nonDegenTri
